@@ -7,7 +7,7 @@ from .common import *
 
 META = {
     "level": "other",
-    "explanation": "Wiring check of the KSY generator (export_ksy itself cannot run here: ruamel.yaml is absent) -- each rule is necessary for the schema to describe the layout the construct parses: (R1) every key of every dict the _emitseq/_emitfulltype/_emitprimitivetype definitions (class level and macro closures) return is, after hyphenation, in the Kaitai attribute vocabulary or the private _construct_render; (R2) the layout parameter that _parse consumes in a role flows to the key carrying that role: Bytes/Padded/FixedSized/Padding/PaddedString length -> size, Array count -> repeat-expr with repeat: expr, GreedyRange repeat: eos, RepeatUntil repeat: until, GreedyBytes/GreedyString size-eos, NullTerminated term/include/consume/require -> terminator/include/consume/eos-error (single-byte terminators only, longer ones refuse), NullStripped pad -> pad-right, Const contents = the built constant, Enum mapping -> enums, Pointer offset -> pos, strings encoding; integer type strings {s|u}{length}{le|be} with signedness and byte-order polarity matching what _parse does -- for FormatField: signed iff lower-case code, little-endian iff '<' or ('=' and host is little-endian); for BytesInteger: self.signed / self.swapped; BitsInteger b{length}; (R3) Struct/Sequence/FocusedSeq emit members by iterating self.subcons forwards, Renamed sets id = self.name, and intra-list references (size: lengthfield, repeat-expr: countfield) name an id emitted earlier in the same list; (R4) the three _compile* fallbacks catch exactly NotImplementedError, hand `bitwise` on unchanged, recurse with recursion+1 and stop at 3.",
+    "explanation": "Wiring check of the KSY generator (export_ksy itself cannot run here: ruamel.yaml is absent) -- each rule is necessary for the schema to describe the layout the construct parses: (R1) every key of every dict the _emitseq/_emitfulltype/_emitprimitivetype definitions (class level and macro closures) return is, after hyphenation, in the Kaitai attribute vocabulary or the private _construct_render; (R2) the layout parameter that _parse consumes in a role flows to the key carrying that role: Bytes/Padded/FixedSized/Padding/PaddedString length -> size, Array count -> repeat-expr with repeat: expr, GreedyRange repeat: eos, RepeatUntil repeat: until, GreedyBytes/GreedyString size-eos, NullTerminated term/include/consume/require -> terminator/include/consume/eos-error (single-byte terminators only, longer ones refuse), NullStripped pad -> pad-right, Const contents = the built constant, Enum mapping -> enums, Pointer offset -> pos, strings encoding; integer type strings {s|u}{length}{le|be} with signedness and byte-order polarity matching what _parse does -- for FormatField: signed iff lower-case code, little-endian iff '<' or ('=' and host is little-endian); for BytesInteger: self.signed / self.swapped; BitsInteger b{length}; (R3) Struct/Sequence/FocusedSeq emit members by iterating self.subcons forwards, Renamed sets id = self.name, and intra-list references (size: lengthfield, repeat-expr: countfield) name an id emitted earlier in the same list; (R4) the three _compile* fallbacks catch exactly NotImplementedError, hand `bitwise` on unchanged, recurse with recursion+1 and stop at 3. R2 also: ksymapping and decmapping are taken after the last entry went into the mapping; (R5) KsyGen.allocateId returns a counter it has just advanced, and every entry stored in the shared tables ksy.types/enums/instances is keyed by a name built from a fresh allocateId() and that same name is returned.",
     "undecided": "Interpreting the schema on encodings (extent and value of every field) needs a Kaitai interpreter; not decided.",
     "trusted_base": ["python ast (3.12)", "sa.summ summariser", "sa/tables.py Kaitai attribute vocabulary (KSY reference)", "struct byte-order characters (library reference)"],
     "assumptions": [],
